@@ -148,3 +148,45 @@
        (ite (unified a j)
             (ccons (SUnify (argname j) (cexpr (tanth a j)) (wrap a (+ j 1) body)) cnil)
             (wrap a (+ j 1) body))))
+
+; ---------------------------------------------------------------------------------------------
+; Clause variables (C01): which variables are declared, once, before the head unification loops
+; ---------------------------------------------------------------------------------------------
+(define-sort SS () (Seq String))
+(define-fun-rec sminus ((q SS) (b SS)) SS           ; [v for v in q if v not in b]
+  (ite (= (seq.len q) 0) (as seq.empty SS)
+       (ite (seq.contains b (seq.unit (seq.nth q 0)))
+            (sminus (seq.extract q 1 (- (seq.len q) 1)) b)
+            (seq.++ (seq.unit (seq.nth q 0)) (sminus (seq.extract q 1 (- (seq.len q) 1)) b)))))
+(define-fun-rec sremoveall ((q SS) (x String)) SS
+  (ite (= (seq.len q) 0) (as seq.empty SS)
+       (ite (= (seq.nth q 0) x) (sremoveall (seq.extract q 1 (- (seq.len q) 1)) x)
+            (seq.++ (seq.unit (seq.nth q 0)) (sremoveall (seq.extract q 1 (- (seq.len q) 1)) x)))))
+(define-fun-rec sdedupe ((q SS)) SS                  ; list(dict.fromkeys(q)): first occurrences, in order (A-PY-DICTORDER)
+  (ite (= (seq.len q) 0) (as seq.empty SS)
+       (seq.++ (seq.unit (seq.nth q 0)) (sdedupe (sremoveall (seq.extract q 1 (- (seq.len q) 1)) (seq.nth q 0))))))
+(define-fun-rec decls ((q SS)) Code                  ; one `V = variable()` per name, in order
+  (ite (= (seq.len q) 0) cnil (ccons (SDecl (seq.nth q 0)) (decls (seq.extract q 1 (- (seq.len q) 1))))))
+; names of the aliased head positions < k, in position order (index form): [v for v in head_args_by_pos if v != None]
+(define-fun-rec aliasnames ((a TAL) (k Int)) SS
+  (ite (<= k 0) (as seq.empty SS)
+       (seq.++ (aliasnames a (- k 1)) (ite (unified a (- k 1)) (as seq.empty SS) (seq.unit (tavname (tanth a (- k 1))))))))
+; the `variables` lists of the AST (occurrence order, with repetitions); the AST properties themselves are not verified
+(declare-fun tavarsl (TAL) SS)
+(declare-fun bodyvars (Body) SS)
+; the stack of bound-variable lists
+(declare-datatypes ((BVS 0)) (((bvnil) (bvpush (bvtop SS) (bvrest BVS)))))
+; block-nesting depth of emitted code (loops and non-empty breakable blocks), as nesting_depth computes it
+(declare-fun ndepth (Code) Int)
+; the non-None entries of head_args_by_pos, in order (index form)
+(define-fun-rec hpnames ((hp (Array Int String)) (hpn (Array Int Bool)) (k Int)) SS
+  (ite (<= k 0) (as seq.empty SS)
+       (seq.++ (hpnames hp hpn (- k 1)) (ite (select hpn (- k 1)) (as seq.empty SS) (seq.unit (select hp (- k 1)))))))
+; L-HPNAMES (proved by induction in vf/lemmas.py): when head_args_by_pos holds the final aliasing state for the head arguments a,
+; its non-None entries are exactly the alias names, in position order
+(assert (forall ((hp (Array Int String)) (hpn (Array Int Bool)) (a TAL) (k Int))
+  (! (=> (forall ((j Int)) (! (=> (and (<= 0 j) (< j k)) (and (= (select hpn j) (unified a j))
+                                                               (=> (not (unified a j)) (= (select hp j) (tavname (tanth a j))))))
+                              :pattern ((select hpn j))))
+         (= (hpnames hp hpn k) (aliasnames a k)))
+     :pattern ((hpnames hp hpn k) (aliasnames a k)))))
